@@ -65,3 +65,17 @@ VARIANTS += [
     M('C02', 'sign-verifier-rejects-booleans', E(BC, "        if type(m) not in (bool, int, long_type, float):", "        if type(m) not in (int, long_type, float):"), rule='C02-VERDICT', key='verify_sign_constraint'),
     M('C02', 'max-nulls-strict', E(BC, "        result = self.get_null_count(colname) <= value", "        result = self.get_null_count(colname) < value"), rule='C02-VERDICT', key='verify_max_nulls_constraint'),
 ]
+
+VARIANTS += [
+    M('C02', 'exclusions-appended-to-the-constraint-list', [E(BC, "            exclusions = exclusions or []\n\n            violations = (set(actual_values) - set(allowed_values)\n                                             - set(exclusions))",
+                                                                "            allowed_values += exclusions or []\n\n            violations = set(actual_values) - set(allowed_values)")],
+      rule='C02-KEEPS', key='lists-kept'),
+    M('C02', 'table-built-from-the-printed-selection', E(PC, "        fields = ver.fields\n", "        fields = OrderedDict((k, v) for k, v in ver.fields.items() if ver.report == 'all' or v.failures)\n"),
+      rule='C02-FRAMEALL', key='PandasVerification'),
+    M('C02', 'whole-numbers-counted-with-a-tolerance', E(PC, "                   - (values.astype(int) == values).astype(int).sum())", "                   - np.isclose(values.astype(int), values).astype(int).sum())"),
+      rule='C02-EXACTSTAT', key='calc_non_integer_values_count'),
+    M('C02', 'bound-converted-instead-of-the-statistic', E(BC, "            m = self.to_datetime(m)\n\n        if not self.types_compatible(m, value):\n            result = False\n        elif (precision == 'closed' or isinstance(value, datetime.datetime)\n                                    or isinstance(value, datetime.date)):\n            result = m >= value",
+                                                            "            value = self.to_datetime(value)\n\n        if not self.types_compatible(m, value):\n            result = False\n        elif (precision == 'closed' or isinstance(value, datetime.datetime)\n                                    or isinstance(value, datetime.date)):\n            result = m >= value"),
+      rule='C02-VERDICT', key='min'),
+    M('C02', 'refactor-exclusions-in-a-new-list', E(BC, "            exclusions = exclusions or []\n", "            exclusions = list(exclusions or ())\n"), kind='refactor'),
+]
